@@ -459,6 +459,152 @@ theorem history_default_logger (ops : List Op) :
       rw [ih (step s o).1, h1, h2]
   exact gen ops State.init
 
+/-! ### the default storage over histories -/
+
+/-- the tail of changeConfig and the default storage, every outcome, in a reachable state whose
+    current context carries the running configuration's storage -/
+theorem changeTo_default_storage {s : State} {r : Option Cfg} (h : Inv s r)
+    (hst : storOf s.cur = Spec.storKey r) (c : Cfg) (e : Env) :
+    (changeTo c e s).1.dstor =
+      (if (changeTo c e s).2 = .ok then c.stor.key
+       else if (changeTo c e s).2.accepted = false ∧ c.top ≠ 1 ∧ c.top ≠ 2 then Spec.storKey r
+       else s.dstor) ∧
+    storOf (changeTo c e s).1.cur
+      = Spec.storKey (if (changeTo c e s).2.accepted = true then some c else r) := by
+  by_cases hok : (changeTo c e s).2 = .ok
+  · obtain ⟨h1, ctx, h2, h3⟩ := accepted_sets_default_storage s c e hok
+    rw [if_pos hok, h2, hok]
+    exact ⟨h1, h3⟩
+  · rw [if_neg hok]
+    by_cases hacc : (changeTo c e s).2.accepted = false
+    · have hrc := rejected_changes_nothing s c e (h.raw.trans h.rawJSON.symm) h.sockCid hacc
+      refine ⟨?_, ?_⟩
+      · by_cases ht : c.top ≠ 1 ∧ c.top ≠ 2
+        · rw [if_pos ⟨hacc, ht⟩, default_storage_after_rejected s c e hacc ht.1 ht.2, hst]
+        · rw [if_neg (fun hh => ht hh.2)]
+          refine default_storage_untouched_before_run s c e ?_
+          by_cases h1 : c.top = 1
+          · exact Or.inl h1
+          · by_cases h2 : c.top = 2
+            · exact Or.inr h2
+            · exact absurd ⟨h1, h2⟩ ht
+      · rw [hrc.2.2.1, hacc]; exact hst
+    · rcases changeTo_cases c e s with ⟨hsame, h'⟩ | h' | ⟨s1, _, h'⟩ | ⟨s1, r', hr, hq, h'⟩
+      · rw [h']
+        have hr : r = some c := h.rawJSON.symm.trans hsame
+        refine ⟨by simp [Res.accepted], ?_⟩
+        show storOf s.cur = _
+        rw [hst, hr]; simp [Res.accepted]
+      · rw [h'] at hacc; exact absurd rfl hacc
+      · rw [h'] at hok; exact absurd rfl hok
+      · rw [h'] at hacc
+        have : r'.accepted = true := by cases hh : r'.accepted; exact absurd hh hacc; rfl
+        exact absurd (decodeAndRun_accepted hq this) hr
+
+/-- **step_default_storage** (full strength): in every reachable state, one operation of any kind
+    moves certmagic.Default.Storage exactly as the spec says — an installed configuration's own
+    storage; the running configuration's (caddy's DefaultStorage if none) after a request that
+    reached run() without being accepted and after every dry run; untouched otherwise — and the
+    current context keeps carrying the running configuration's storage -/
+theorem step_default_storage {s : State} {r : Option Cfg} (h : Inv s r)
+    (hst : storOf s.cur = Spec.storKey r) (op : Op) :
+    (step s op).1.dstor = Spec.storage s.dstor r op (step s op).2 ∧
+    storOf (step s op).1.cur = Spec.storKey (Spec.step r op (step s op).2.accepted) := by
+  have hc : ∀ (op : Op) (c : Cfg) (e : Env), Spec.installs op = true → Spec.attempted r op = some c →
+      (bump (changeTo c e s)).1.dstor = Spec.storage s.dstor r op (bump (changeTo c e s)).2 ∧
+      storOf (bump (changeTo c e s)).1.cur
+        = Spec.storKey (if (bump (changeTo c e s)).2.accepted = true then Spec.attempted r op else r) := by
+    intro op c e hi ha
+    obtain ⟨h1, h2⟩ := changeTo_default_storage h hst c e
+    refine ⟨?_, ?_⟩
+    · show (changeTo c e s).1.dstor = Spec.storage s.dstor r op (changeTo c e s).2
+      rw [h1]
+      unfold Spec.storage Spec.reachedRun
+      cases op with
+      | validate _ _ => cases hi
+      | junk => cases hi
+      | stop => cases hi
+      | load _ _ => simp [ha, hi, Spec.storKey, Bool.and_eq_true, and_assoc]
+      | patch _ _ => simp [ha, hi, Spec.storKey, Bool.and_eq_true, and_assoc]
+      | del _ _ => simp [ha, hi, Spec.storKey, Bool.and_eq_true, and_assoc]
+    · show storOf (changeTo c e s).1.cur = Spec.storKey (if (changeTo c e s).2.accepted = true then _ else r)
+      rw [h2, ha]
+  cases op with
+  | load c e =>
+    have := hc (.load c e) c e rfl rfl
+    exact this
+  | patch a e =>
+    unfold step
+    cases hraw : s.raw with
+    | none =>
+      have hr : r = none := h.raw.symm.trans hraw
+      subst hr
+      exact ⟨by simp [bump, Spec.storage, Spec.reachedRun, Spec.attempted, Spec.installs], hst⟩
+    | some c =>
+      have hr : r = some c := h.raw.symm.trans hraw
+      subst hr
+      dsimp only
+      cases hrep : replaceApp a c.apps with
+      | none =>
+        exact ⟨by simp [bump, Spec.storage, Spec.reachedRun, Spec.attempted, Spec.installs, hrep], hst⟩
+      | some apps =>
+        dsimp only
+        have := hc (.patch a e) { c with apps := apps } e rfl (by simp [Spec.attempted, hrep])
+        simpa [Spec.step] using this
+  | del n e =>
+    unfold step
+    cases hraw : s.raw with
+    | none =>
+      have hr : r = none := h.raw.symm.trans hraw
+      subst hr
+      exact ⟨by simp [bump, Spec.storage, Spec.reachedRun, Spec.attempted, Spec.installs], hst⟩
+    | some c =>
+      have hr : r = some c := h.raw.symm.trans hraw
+      subst hr
+      dsimp only
+      cases hrem : removeApp n c.apps with
+      | none =>
+        exact ⟨by simp [bump, Spec.storage, Spec.reachedRun, Spec.attempted, Spec.installs, hrem], hst⟩
+      | some apps =>
+        dsimp only
+        have := hc (.del n e) { c with apps := apps } e rfl (by simp [Spec.attempted, hrem])
+        simpa [Spec.step] using this
+  | junk => exact ⟨by simp [step, bump, Spec.storage, Spec.reachedRun, Spec.attempted, Spec.installs], hst⟩
+  | validate c e =>
+    refine ⟨?_, ?_⟩
+    · show (validate c e s).1.dstor = _
+      rw [validate_dstor, hst]; simp [Spec.storage, Spec.reachedRun, Spec.installs]
+    · show storOf (validate c e s).1.cur = _
+      rw [(validate_frame c e s).cur]; exact hst
+  | stop =>
+    refine ⟨?_, rfl⟩
+    show (unsyncedStop s.cur s).dstor = _
+    rw [unsyncedStop_dstor]; simp [Spec.storage, Spec.reachedRun, Spec.attempted, Spec.installs]
+
+/-- **history_default_storage** (full strength). For EVERY history of operations, with every fault
+    and every order at every step: certmagic.Default.Storage is what the spec computes from the
+    operations and their answers alone — the storage of the last installed configuration, put back
+    to the running configuration's (caddy's DefaultStorage once nothing runs) by every request that
+    reached run() without being accepted and by every dry run. (This is what the correspondence
+    oracle checks on the real code after every operation.) -/
+theorem history_default_storage (ops : List Op) :
+    (runOps State.init ops).dstor
+      = Spec.storageAfter 0 none (ops.zip ((trace State.init ops).map (·.1))) := by
+  have gen : ∀ (ops : List Op) (s : State) (r : Option Cfg), Inv s r → storOf s.cur = Spec.storKey r →
+      (runOps s ops).dstor = Spec.storageAfter s.dstor r (ops.zip ((trace s ops).map (·.1))) := by
+    intro ops
+    induction ops with
+    | nil => intro s r _ _; rfl
+    | cons o os ih =>
+      intro s r h hst
+      obtain ⟨h1, h2⟩ := step_default_storage h hst o
+      show (runOps (step s o).1 os).dstor
+        = Spec.storageAfter (Spec.storage s.dstor r o (step s o).2) (Spec.step r o (step s o).2.accepted)
+            (os.zip ((trace (step s o).1 os).map (·.1)))
+      rw [ih (step s o).1 _ (inv_step h o) h2, h1]
+  exact gen ops State.init none inv_init rfl
+
+
 -- non-vacuity: load A (ok, operation 0), a load rejected at Start (1), a successful dry run (2), a malformed
 -- request (3), load B (ok, 4), "unchanged" (5), Stop (6): the logger is operation 4's
 example : let ops : List Op := [.load exOld ⟨true, false, 0, [], [0, 3], [0, 3]⟩, .load exNew exEnv,
@@ -467,5 +613,18 @@ example : let ops : List Op := [.load exOld ⟨true, false, 0, [], [0, 3], [0, 3
     (trace State.init ops).map (·.1) = [.ok, .errStart, .ok, .errBody, .ok, .same, .ok] ∧
     (runOps State.init ops).dlogger = 5 ∧
     (runOps State.init (ops.take 4)).dlogger = 1 := by decide
+
+-- non-vacuity (storage): load A (storage 0), a load asking for storage 1 rejected at Start (back to
+-- 0), load B with storage 2 (ok: 2), a dry run asking for storage 1 (back to 2), Stop (still 2),
+-- then a load asking for storage 1 rejected while provisioning (nothing runs: caddy's default, 0)
+example : let ops : List Op := [.load exOld ⟨true, false, 0, [], [0, 3], [0, 3]⟩,
+      .load { exNew with stor := ⟨0, 1⟩ } exEnv,
+      .load ⟨0, [], [⟨0, 5, 0, [2], []⟩], ⟨0, 2⟩⟩ exEnv,
+      .validate ⟨0, [], [⟨0, 5, 0, [2], []⟩], ⟨0, 1⟩⟩ exEnv, .stop,
+      .load ⟨0, [], [⟨0, 5, 3, [2], []⟩], ⟨0, 1⟩⟩ exEnv]
+    (trace State.init ops).map (·.1) = [.ok, .errStart, .ok, .ok, .ok, .errProvision] ∧
+    (trace State.init ops).map (·.2.dstor) = [0, 0, 2, 2, 2, 0] ∧
+    Spec.storageAfter 0 none (ops.zip ((trace State.init ops).map (·.1))) = 0 ∧
+    Spec.storageAfter 0 none ((ops.take 5).zip ((trace State.init (ops.take 5)).map (·.1))) = 2 := by decide
 
 end CaddyModel.C01
